@@ -11,7 +11,24 @@ VARIABLE l
 
 DbOf(r) == r.db
 
+(* Pair lines (C02, C03): the same statement under two configurations. Both
+   observations are judged against the reference individually (single lines);
+   the pair line states the property literally: same rows (as a bag; the
+   sequence is checked against the keys on each side), same column names and
+   types, same outcome class. The only admitted difference is an evaluation
+   error on one side when the case declares it admissible.                   *)
+PairWhy(r) ==
+  LET a == r.a  b == r.b IN
+  IF a.outcome = "rows" /\ b.outcome = "rows" THEN
+       IF a.schema # b.schema \/ a.names # b.names THEN "pair-schema"
+       ELSE IF Mode(r.q) \in {"bag", "sorted"} /\ ~BagEq(a.rows, b.rows) THEN "pair-rows"
+       ELSE "ok"
+  ELSE IF a.outcome = b.outcome /\ a.outcome \in {"unsupported", "error"} THEN "ok"
+  ELSE IF r.admit_error /\ {a.outcome, b.outcome} = {"rows", "error"} THEN "ok"
+  ELSE "pair-outcome"
+
 Why(r) ==
+  IF "a" \in DOMAIN r THEN PairWhy(r) ELSE
   LET o == r.obs IN
   IF o.outcome = "rows" THEN
        IF ~RowsOK(r.q, DbOf(r), o.rows) THEN "rows"
@@ -24,7 +41,9 @@ Why(r) ==
 
 Report(r, why) ==
   PrintT(ToJson([mismatch |-> r.id, why |-> why, mode |-> Mode(r.q),
-                 exp |-> IF why = "class" THEN <<ClassQ(r.q, r.dbc, <<>>)>> ELSE Expected(r.q, DbOf(r))]))
+                 exp |-> IF why = "class" THEN <<ClassQ(r.q, r.dbc, <<>>)>>
+                         ELSE IF "a" \in DOMAIN r THEN <<>>
+                         ELSE Expected(r.q, DbOf(r))]))
 
 TInit == l = 1
 TNext == /\ l <= Len(Rec)
